@@ -426,12 +426,12 @@ def finish(ctx):
     for f in real:
         hit = next((e for e in known if _matches(e, f["cls"])), None)
         if hit is not None:
-            seen_known.setdefault(hit["what"], 0)
-            seen_known[hit["what"]] += 1
+            # total number of failing points of this class (not only the few kept as artefacts)
+            seen_known.setdefault(hit["what"], {})[digest(f["cls"])] = t.fail_classes.get(digest(f["cls"]), 1)
         else:
             viol.append(f)
-    for what, n in seen_known.items():
-        print(f"KNOWN-FINDING: property={ctx.prop} {what} ({n} failing points kept of this class)", flush=True)
+    for what, classes in seen_known.items():
+        print(f"KNOWN-FINDING: property={ctx.prop} {what} [{sum(classes.values())} failing points in {len(classes)} class(es) on this run]", flush=True)
     ctx.coverage["known_findings_seen"] = len(seen_known)
     rc = 0
     if viol:
